@@ -114,7 +114,10 @@ class LexicaseSelection(GeneticStep):
                     if add_candidate:
                         new_candidates.append(checking_candidate)
 
-                candidates_to_check = new_candidates.copy()
+                # A case on which no candidate passes (its best value is NaN: every comparison is False)
+                # tells nothing apart: it is skipped, the candidates stay as they are.
+                if new_candidates:
+                    candidates_to_check = new_candidates.copy()
 
             winner = random.choice(candidates_to_check) if len(candidates_to_check) > 1 else candidates_to_check[0]
             assert isinstance(winner.get_fitness(problem).fitness_components, list)
